@@ -40,7 +40,7 @@ void vt_presets(const char* presets);       /* provided per program: sets mode v
 #define MAXEV 16
 typedef struct { char kind; int len; uint8_t data[2048]; } Event;
 static Event g_ev[MAXEV]; static int g_nev, g_pos;
-static int g_timer_armed, g_timer_fd = -1, g_can_fd = -1, g_net_fd = -1;
+static int g_timer_armed, g_timer_periodic, g_expiry_budget, g_timer_fd = -1, g_can_fd = -1, g_net_fd = -1;
 static int g_next_fd = 100;
 
 /* effects log in shared memory (survives a crashing child) */
@@ -90,6 +90,8 @@ int vt_timerfd_settime(int fd, int flags, const struct itimerspec* nv, struct it
 {
     (void)fd; (void)flags; (void)ov;
     g_timer_armed = nv && (nv->it_value.tv_sec || nv->it_value.tv_nsec);
+    g_timer_periodic = nv && (nv->it_interval.tv_sec || nv->it_interval.tv_nsec);
+    g_expiry_budget = 2;        /* horizon: a periodic timer fires at most twice between two datagrams */
     elog("TIMER %s;", g_timer_armed ? "armed" : "disarmed");
     return 0;
 }
@@ -103,6 +105,7 @@ ssize_t vt_recv(int fd, void* buf, size_t n, int flags)
     Event* e = &g_ev[g_pos++];
     size_t c = (size_t)e->len < n ? (size_t)e->len : n;
     memcpy(buf, e->data, c);
+    if (g_timer_periodic) { g_expiry_budget = 2; g_timer_armed = g_timer_armed || g_expiry_budget > 0; }
     elog("RECV %d;", e->len);
     return (ssize_t)c;
 }
@@ -125,7 +128,7 @@ ssize_t vt_read(int fd, void* buf, size_t n)
 {
     if (fd == g_timer_fd) {
         uint64_t one = 1;
-        g_timer_armed = 0;
+        g_timer_armed = g_timer_periodic && --g_expiry_budget > 0;
         memcpy(buf, &one, n < 8 ? n : 8);
         elog("EXPIRY;");
         return 8;
@@ -170,7 +173,7 @@ static void parse_events(char* s)
     }
 }
 
-static void sanitize(char* s) { for (; *s; s++) if (*s == '\t' || *s == '\n' || *s == '\r') *s = ' '; }
+static void sanitize(char* s) { for (; *s; s++) if ((unsigned char)*s < 0x20 || (unsigned char)*s >= 0x7f) *s = (*s == '\n' || *s == '\t' || *s == '\r') ? ' ' : '.'; }
 
 int main(int argc, char** argv)
 {
